@@ -14,8 +14,13 @@ Property: "every draw lies in the support (integer-valued for discrete laws)".
   `p > ½` flip (the checked subtraction `n − r` never panics).  Triangle and parallelogram candidates are not range-tested by
   the code: `[0, n]` follows from `(xl, xr] ⊆ [0, n]`, i.e. from the set-up arithmetic under `0 < p ≤ ½`, `n p > 30` (what the
   routing guarantees); the tails are guarded by the explicit tests `y < 0` / `y > n` on one side and by `ln v ≤ 0` on the other.
-* Ziggurat (`zig_*`): every accepting branch returns `μ ± x σ` with a real `x ≥ 0` (strip / wedge: `x = j·W[i]`, tail:
-  `x ≥ R` and the argument of `ln_1p` is `> −1`, so the logarithm is finite).
+* Ziggurat (`zig_strip_nonneg`, `zig_wedge_tail_nonneg`, `zig_out` — PARTIAL: per accepting branch, not as one statement about
+  `Normal.sample`): every accepting branch returns `Normal.out μ σ s x = μ ± x σ` with a real `x ≥ 0` (strip / wedge:
+  `x = j·W[i]`, all 128 widths `≥ 0`; tail: `x ≥ R > 0` and the argument of `ln_1p` is `> −1`, so the logarithm is finite).
+  Missing for the loop-level statement `Normal.sample fuel μ σ g = some (z, g') → ∃ s = ±1, x ≥ 0, z = s x σ + μ`: the unfolding
+  of `Normal.sample (fuel + 1)`.  Every way of obtaining it (equation lemmas, `unfold`, `rfl` against the body, `delta` +
+  `dsimp`) fails to terminate within minutes in Lean 4.33 — already `#check @Cv.Normal.sample.eq_2` in a file importing only
+  `Compute.Model.Samplers` — apparently because reducing the `match g.u64 with` unfolds the wyrand mixer on a symbolic state.
 * Compositions (`chi_squared_pos`, `t_support`, `beta_support`): χ² draws are `> 0` for `dof ≥ 2`, and for `dof = 1` iff the
   boosting uniform is not `0` (`chi_squared_zero`: with `u = 0` the draw is exactly `0`); Student-t divides by `√G` with
   `G > 0` under the same condition; Beta draws lie in `[0, 1]` in every branch (re-export of `C03.beta_sample_support`).
@@ -155,14 +160,14 @@ theorem ptrs_small_lambda_returns_negative :
     · have hV := (f64_mem ((⟨138⟩ : Rng).f64 (α := ℝ)).2).2
       rw [hvr]
       have hd : 0 < 2 - b := by linarith
-      have : ofLit C03T.ptrsV1 / (b - 2) = -(ofLit C03T.ptrsV1 / (2 - b)) := by
-        rw [← neg_sub b 2, div_neg]
+      have : (ofLit C03T.ptrsV1 : ℝ) / (b - 2) = -(ofLit C03T.ptrsV1 / (2 - b)) := by
+        rw [show b - 2 = -(2 - b) by ring, div_neg]
       rw [this]
       have : 1 ≤ ofLit C03T.ptrsV1 / (2 - b) := by
         rw [le_div_iff₀ hd]; linarith
       linarith
   rw [if_pos hcond]
-  refine ⟨_, ?_⟩
+  refine ⟨(((⟨138⟩ : Rng).f64 (α := ℝ)).2.f64 (α := ℝ)).2, ?_⟩
   congr 2
   rw [hus, hf1, halfC_real, hlam, floor_def]
   have e2 : ((2 : Nat) : ℝ) = 2 := by norm_num
@@ -181,7 +186,7 @@ theorem ptrs_small_lambda_returns_negative :
     constructor
     · push_cast; linarith
     · push_cast; linarith
-  rw [hfl]; norm_num
+  rw [← hadef, ← hbdef, hfl]; norm_num
 
 /-! ## Binomial -/
 
@@ -206,7 +211,9 @@ theorem btpe_support (fuel ifuel n : ℕ) (p : ℝ) (h0 : 0 < (Binomial.btpeSetu
   have hgood := btpeSetup_good n p h0 h1 hn
   unfold Binomial.btpe at h
   simp only [] at h
-  split_ifs at h with hp4
+  by_cases hp4 : (Binomial.btpeSetup n p).p4 < 0
+  · rw [if_pos hp4] at h; simp at h
+  rw [if_neg hp4] at h
   cases hl : Binomial.btpeLoop (Binomial.btpeSetup n p) ifuel fuel g with
   | none => rw [hl] at h; simp at h
   | some r =>
@@ -215,11 +222,13 @@ theorem btpe_support (fuel ifuel n : ℕ) (p : ℝ) (h0 : 0 < (Binomial.btpeSetu
     simp only [Option.some.injEq, Prod.mk.injEq] at h
     obtain ⟨j, hj, hjn⟩ := btpeLoop_inRange hgood (not_lt.mp hp4) ifuel fuel g g1 y hl
     rw [← h.1, hgood.nf, hj]
-    split_ifs
-    · have : ((n : ℝ) - (j : ℝ)) = ((n - j : ℕ) : ℝ) := by rw [Nat.cast_sub hjn]
+    by_cases hp : (halfC : ℝ) < p
+    · rw [if_pos hp]
+      have : ((n : ℝ) - (j : ℝ)) = ((n - j : ℕ) : ℝ) := by rw [Nat.cast_sub hjn]
       rw [this]
       exact le_trans (toU64_natCast _) (Nat.sub_le _ _)
-    · exact le_trans (toU64_natCast _) hjn
+    · rw [if_neg hp]
+      exact le_trans (toU64_natCast _) hjn
 
 /-- The routed sampler (inversion for `n p' ≤ 30`, BTPE otherwise) at `0 < p' ≤ ½` returns a count `≤ n`. -/
 theorem binomialRoute_le (fuel ifuel n : ℕ) (p : ℝ) (hp0 : 0 < p) (hp : p ≤ 1 / 2) (g g' : Rng) (k : ℕ)
